@@ -28,6 +28,7 @@ PROPS = {
         },
         "obs": [("line", []), ("det", [])],
         "kinds": ["LINE", "LINES"],
+        "viol_exclude_prefix": "panic",
         "assumptions": [
             "a flagged construct starts inside the file on a byte that is not a line feed (token starts; evaluated per request: LINE requests with the offset on a line feed or past the end are outside the oracle's domain)",
             "line counts stay below 2^31 (i32 in the code, Nat in the model)",
@@ -145,6 +146,28 @@ PROPS = {
             "immutable_variables completeness is proved for right-hand sides that do not look like a non-value type (…_complete_partial); the full statement is false of model and code (known finding K1, Lean counterexample)",
             "memory_to_calldata: ++/-- on a parameter and member writes are a grey zone (section 8.4): the must-suggest oracle excludes them, the must-not oracle does not name them",
             "depends on C01 through the regenerated walker table",
+        ],
+    },
+    "C04": {
+        "theorems": {
+            "Solstat.Props.C04": [
+                "panic_sites_accounted", "inventory_residue_empty", "unwrap_safe", "expression_unwraps_safe",
+                "statement_unwraps_safe", "source_unit_part_unwraps_safe", "two_owner_kinds", "contract_part_safe",
+                "string_index_safe", "versionOfValue_total", "parseI32_overflow",
+            ],
+            "Solstat.Props.C09": ["no_version_silent"],
+            "Solstat.Props.C01": ["C01", "blocked_empty", "kinds_by_name", "walk_residue_empty"],
+        },
+        "obs": [("det", ["--hostile"])],
+        "kinds": ["DET", "LINES", "FILE"],
+        "viol_only_prefix": "panic",
+        "release_too": True,
+        "rule": "a case is one (file, detector) or (file, pattern) call under catch_unwind; distinct by SHA-1 of the request line; non-trivial when the implementation returns findings (the hostile stream aims at the panic sites: no pragma, free functions, huge literals, odd pragma values, address(), >256 functions, deep nesting)",
+        "assumptions": [
+            "quantifies over files the parser accepts; nesting depth <= 64 is inherited from the inputs (the model has no stack)",
+            "solang-parser trees conform to the schema generated from pt.rs and every string-literal expression has a piece (evaluated per FILE request)",
+            "quick tier: debug build (overflow checks on); thorough tier: debug and release builds",
+            "I/O, CLI and configuration sites are the business of C14/C16/C18 (classified in Props/C04Sites.lean)",
         ],
     },
 }
